@@ -114,7 +114,9 @@ Theorem C20_fresh_pool : forall k ls s c,
   wire s c = [] /\ matchesb s c k = true.
 Proof. exact fresh_pool. Qed.
 
-(* an invalid name is rejected locally: the state does not change, nothing is sent *)
+(* an invalid name is rejected locally: the state does not change, nothing is sent.  (This restates the
+   UseKeyspace branch of [step] - the model does validation first by construction; that the CODE
+   validates before anything is sent is observed by the e2e check of the USE texts.) *)
 Theorem C20_name_rejected : forall s raw cs, ~ valid_name raw -> step s (UseKeyspace raw cs) = Some s.
 Proof. exact use_rejected. Qed.
 
@@ -354,7 +356,14 @@ Example C20_ex_anchor_trace :
   accept_trace None [ERet 0 true] = false /\ accept_trace None [EFrame 0 None] = false /\
   (* and lenient where calls overlap *)
   accept_trace None [ECall 0 (ex_ks, false); ECall 1 ([97]%N, false); ERet 0 true; ERet 1 true; EStart 2; EFrame 2 (Some [97]%N)] = true /\
-  accept_trace None [ECall 0 (ex_ks, false); ECall 1 ([97]%N, false); ERet 0 true; ERet 1 true; EStart 2; EFrame 2 (Some [98]%N)] = false.
+  accept_trace None [ECall 0 (ex_ks, false); ECall 1 ([97]%N, false); ERet 0 true; ERet 1 true; EStart 2; EFrame 2 (Some [98]%N)] = false /\
+  (* after a group of overlapping calls that all returned Ok only the group's keyspaces remain allowed:
+     not "none", not an older keyspace; if one of them failed nothing is narrowed *)
+  accept_trace None [ECall 0 (ex_ks, false); ECall 1 (ex_ks, false); ERet 0 true; ERet 1 true; EStart 2; EFrame 2 None] = false /\
+  accept_trace None [ECall 0 (ex_ks, false); ECall 1 (ex_ks, false); ERet 0 true; ERet 1 true; EStart 2; EFrame 2 (Some ex_ks)] = true /\
+  accept_trace None [ECall 0 ([98]%N, false); ERet 0 true; ECall 1 (ex_ks, false); ECall 2 (ex_ks, false); ERet 1 true; ERet 2 true;
+                     EStart 3; EFrame 3 (Some [98]%N)] = false /\
+  accept_trace None [ECall 0 (ex_ks, false); ECall 1 (ex_ks, false); ERet 0 false; ERet 1 true; EStart 2; EFrame 2 None] = true.
 Proof. repeat split; vm_compute; reflexivity. Qed.
 
 Print Assumptions C20_name.
